@@ -166,6 +166,9 @@ structure IPItemsM where
   table : List Item
   version : String
 
+/-- `IPItems.Length()` = number of pairs + `ipSet.Len()` (the set holds each single address once, by C20) -/
+def IPItemsM.length (it : IPItemsM) : Nat := it.table.length + it.singles.eraseDups.length
+
 /-- `IPTable.ipItems` (`none` = nil) -/
 abbrev IPTableM := Option IPItemsM
 
